@@ -232,6 +232,15 @@ def exec_layout(case):
     if ok is not None:
         q2 = cut(SymmetricQuantizer.apply, q.dequantize(), qtype, axis, scale)
         O.check_idem(out, tag, q2, ok, c)
+    if not out.failures and case["layout"][0] not in ("expand", "overlap"):
+        # the SAME tensor object after an in-place update: the result is that of its current values
+        upd = cut(lambda: x.mul_(0.37 if case["seed"] % 2 else -1.9))
+        if not isinstance(upd, Raised):
+            q3 = cut(SymmetricQuantizer.apply, x, qtype, axis, scale)
+            if isinstance(q3, Raised):
+                out.fail(f"{tag}/after-inplace-update/raises:{q3.type}", q3.text)
+            else:
+                O.check_N(out, f"{tag}/after-inplace-update", x, scale, q3, qtype, idem=False)
     out.nontrivial = bool(stats) and (stats["over"] + stats["under"] > 0) and stats["interior"] > 0 and (axis is not None or not x.is_contiguous() or len(case["shape"]) != 2)
     out.fingerprint = [case["dtype"], case["qtype"], case["shape"], axis, case["layout"][0], case["fill"], case["decades"]]
     sq = len(set(case["shape"])) == 1 and len(case["shape"]) > 1
